@@ -24,6 +24,8 @@ pub struct GenOpts {
     pub min_frac: f64,
     /// worst-case number of validity queries a run may need (0 = default 4e5)
     pub query_budget: f64,
+    /// never generate legal-but-non-canonical states (the Python constructors canonicalise)
+    pub canonical_only: bool,
 }
 
 fn unit_quat(rng: &mut Xo) -> [f64; 4] {
@@ -550,6 +552,18 @@ pub fn base(rng: &mut Xo, prop: &str, seed: u64, index: u64, o: &GenOpts) -> Sce
     params.insert("sealed".into(), if wb.sealed { 1.0 } else { 0.0 });
     params.insert("start_invalid".into(), if wb.start_invalid { 1.0 } else { 0.0 });
     let sampler = o.goal_sampler.unwrap_or_else(|| *rng.pick(&[GoalSampler::Fixed, GoalSampler::Harness, GoalSampler::Harness]));
+    // legal but non-canonical start: SO(2) components off by whole turns (the state types have
+    // public fields and every space primitive accepts any angle)
+    let mut wb = wb;
+    if !o.canonical_only && rng.chance(0.12) {
+        let mut off = 0;
+        for c in layout(&space) {
+            if let Comp::SO2 = c {
+                wb.start[off] += 2.0 * PI * *rng.pick(&[-2.0, -1.0, 1.0, 1.0, 2.0]);
+            }
+            off += c.width();
+        }
+    }
     Scenario {
         property: prop.into(),
         family: wb.family.into(),
